@@ -167,7 +167,14 @@ func cmdCheck(args []string) {
 	}
 	work := filepath.Join(root, ".work", fmt.Sprintf("%s-%d", prop, os.Getpid()))
 	cfg := &SolverCfg{WorkDir: work, TimeoutMS: timeout, Seed: seed, Jobs: 12, AllAgree: tier == "thorough", Keep: *keep}
+	phase := func(name string) {
+		if os.Getenv("GOVC_PHASES") != "" {
+			fmt.Fprintf(os.Stderr, "PHASE %s at %.1fs\n", name, time.Since(t0).Seconds())
+		}
+	}
+	phase("symbolic execution done")
 	SolveAll(res.Obls, cfg)
+	phase("solving done")
 	if !*keep {
 		defer os.RemoveAll(work)
 	}
@@ -190,6 +197,7 @@ func cmdCheck(args []string) {
 		cfg2.TimeoutMS = 60000
 		cfg2.StageMS = 15000
 		SolveAll(retry, &cfg2)
+		phase("retry done")
 		res.Extra["retried_after_timeout"] = len(retry)
 	}
 	if *updateGreen {
@@ -296,11 +304,11 @@ func cmdCheck(args []string) {
 			sem <- struct{}{}
 			defer func() { <-sem }()
 			v := &verdicts[gi]
-			tries := 0
+			tries, cands := 0, 0
 			reproduced := false
 			var lastDetail = map[*Obligation]string{}
 			for _, o := range g.obls {
-				if (o.Status != "failed" && o.Pre == nil) || o.Model == "" || tries >= 4 {
+				if o.Model == "" || tries >= 4 || (o.Status != "failed" && o.Pre == nil && cands >= 1) {
 					continue
 				}
 				k, ok := keyOf[o.Func]
@@ -308,6 +316,9 @@ func cmdCheck(args []string) {
 					continue
 				}
 				tries++
+				if o.Status != "failed" {
+					cands++
+				}
 				rp := p.Replay(k, o, prop, replayDir)
 				lastDetail[o] = rp.Detail
 				if o.Note == "" || strings.HasPrefix(o.Note, "candidate") {
@@ -350,6 +361,7 @@ func cmdCheck(args []string) {
 		}(gi, g)
 	}
 	wg.Wait()
+	phase("replays done")
 	for _, v := range verdicts {
 		for _, l := range v.lines {
 			fmt.Println(l)
